@@ -448,8 +448,23 @@ func ruleWaitChain(w *World, r *Report, pfx string) {
 		if iB < 0 || iS < 0 || iB > iS {
 			bad = "Wait does not wait for the bars and then shut the container down"
 		}
+		// the user's wait group (WithWaitGroup) is waited for whenever one was given
+		iU := -1
+		for _, ev := range p.Events {
+			if o := w.Comm().byIn[ev.In]; o != nil && o.Kind == "wg.Wait" && o.Class.has("wg:Progress.uwg") {
+				iU = ev.Idx
+			}
+		}
+		given := p.hasCmp(-1, token.NEQ, loadOf("mpb.Progress", "uwg"), isNilVal)
+		none := p.hasCmp(-1, token.EQL, loadOf("mpb.Progress", "uwg"), isNilVal)
+		switch {
+		case given && iU < 0:
+			bad = orStr(bad, "Wait returns without waiting for the wait group given with WithWaitGroup")
+		case !given && !none:
+			bad = orStr(bad, "Wait does not look at the user's wait group")
+		}
 	})
-	r.Check(bad == "", rule, "Progress.Wait", w.pos(wait.Pos()), "bwg.Wait then Shutdown", bad)
+	r.Check(bad == "", rule, "Progress.Wait", w.pos(wait.Pos()), "bwg.Wait then Shutdown, then the user's group if any", bad)
 	bad = ""
 	w.enumPaths(shut, pathOpts{}, func(p *Path) {
 		iC, iW := -1, -1
@@ -535,9 +550,16 @@ func ruleStatisticsFaithful(w *World, r *Report, pfx string) {
 					okCompleted = true
 				}
 			}
+			// the width available to the row is the width the renderer was given, unchanged
+			if f.Name == "AvailableWidth" {
+				if par, ok := w.origin(st.Val).(*ssa.Parameter); ok && par.Parent() == fn {
+					got["AvailableWidth"] = true
+				}
+			}
 		}
 	}
 	bad := ""
+	want["AvailableWidth"] = "(the width parameter)"
 	for k := range want {
 		if !got[k] {
 			bad = "Statistics." + k + " is not copied from the bar state"
